@@ -372,6 +372,9 @@ type Expect struct {
 	Oplog   string `json:"oplog"`
 	// diagnostics only: the operation in flight at the crash position
 	InFlight string `json:"in_flight,omitempty"`
+	// CleanSinceStop: no insert, side import or SetHead has begun since the last completed clean
+	// stop, so whatever that stop persisted (path scheme: the layer journal) must still hold
+	CleanSinceStop bool `json:"clean_since_stop"`
 }
 
 type Verdict struct {
@@ -432,7 +435,9 @@ func checkState(dir string) (v Verdict) {
 			return bad("reopen-error", "rawdb.Open failed: %v", err)
 		}
 		tail, _ := pre.Tail(rawdb.ChainFreezerBlockDataGroup)
-		persisted = persistedBound(pre, p, m)
+		if !e.CleanSinceStop {
+			persisted = persistedBound(pre, p, m)
+		}
 		if os.Getenv("C39_DEBUG") != "" {
 			blob := rawdb.ReadAccountTrieNode(pre, nil)
 			fmt.Fprintf(os.Stderr, "DEBUG persistent state id %d, disk trie root %x, snapshot root %x, head block %x\n", rawdb.ReadPersistentStateID(pre), crypto.Keccak256(blob), rawdb.ReadSnapshotRoot(pre), rawdb.ReadHeadBlockHash(pre))
@@ -593,12 +598,12 @@ func checkState(dir string) (v Verdict) {
 // ---------------------------------------------------------------------------------------
 
 func run(r *vrt.Run) {
-	r.Rule("a case = (generated blockchain scenario, crash position, crash-state variant); scenarios: canonical chain of 8-60 blocks with transfers, optional side chain, segments imported step by step, freeze cycle (finalized marker + Freeze), SetHead to random targets, clean stop+restart, for hash scheme (normal, archive, with snapshots) and path scheme (maxDiffLayers 2-128); positions: mutating file syscalls and key-value operations anywhere between START and END (quick: sampled, thorough: all); variants: kill, power-loss cuts x key-value prefixes. non-trivial signature = (scheme config, model, in-flight step kind, event kind, recovery outcome: head vs acknowledged/rewound to genesis/blocks re-imported, freezer non-empty)")
+	r.Rule("a case = (generated blockchain scenario, crash position, crash-state variant); scenarios: canonical chain of 8-60 blocks with transfers, optional side chain, segments imported step by step, freeze cycle (finalized marker + Freeze), SetHead to random targets, clean stop+restart, for hash scheme (normal, archive, with snapshots) and path scheme (maxDiffLayers 2-128); positions: mutating file syscalls and key-value operations anywhere between START and END (quick: sampled, thorough: a larger sample, all if few); variants: kill, power-loss cuts x key-value prefixes. non-trivial signature = (scheme config, model, in-flight step kind, event kind, recovery outcome: head vs acknowledged/rewound to genesis/blocks re-imported, freezer non-empty)")
 	if _, err := exec.LookPath("strace"); err != nil {
 		r.Inconclusive("strace not available: %v", err)
 		return
 	}
-	nh := r.N(6, 200)
+	nh := r.N(6, 24)
 	vrt.Par(nh, 0, func(hi int) {
 		if only := os.Getenv("C39_ONLY"); only != "" && only != fmt.Sprint(hi) {
 			return
@@ -623,11 +628,15 @@ func run(r *vrt.Run) {
 		}
 		spec := &crashrun.Spec{R: r, Hi: hi, Base: base, Root: root, Marks: marks,
 			WorkloadMode: "c39-workload", WorkloadEnv: []string{"C39_ROOT=" + root, "C39_MARKS=" + marks, "C39_PLAN=" + planPath, "C39_OPLOG=" + oplog},
-			ReopenMode: "c39-reopen", ListEnv: "C39_LIST", PosPer: r.N(30, 0), NRandom: r.N(1, 5), Rng: r.Rand("hist", hi)}
+			ReopenMode: "c39-reopen", ListEnv: "C39_LIST", PosPer: r.N(30, 150), NRandom: r.N(1, 2), Rng: r.Rand("hist", hi)}
 		// the operations that commit tries and rewrite markers in several key-value batches
 		spec.Prefer = func(lastMark, what string) bool {
 			return what == "kvop" && strings.HasPrefix(lastMark, "B ") && (strings.Contains(lastMark, " restart ") || strings.Contains(lastMark, " sethead "))
 		}
+		// head reported at the end of every step of the recorded (complete) run: a SetHead whose
+		// target state is unavailable rewinds further by design, so while it is in flight only
+		// the head it eventually reached is promised
+		var endHead map[int]uint64
 		spec.Build = func(ps crashrun.Pos, cs sysjournal.CrashState, kvn uint64, model string) (any, string) {
 			e := &Expect{Plan: p, Oplog: oplog}
 			inflight := "none"
@@ -639,12 +648,32 @@ func run(r *vrt.Run) {
 				case strings.HasPrefix(mk, "STOPPED "):
 					fmt.Sscanf(mk, "STOPPED %d %d", &i, &h)
 					e.AckHead = h
+					e.CleanSinceStop = true
 				case strings.HasPrefix(mk, "B "):
 					fmt.Sscanf(mk, "B %d %s %d", &i, &kind, &a)
 					inflight = kind
 					e.InFlight = fmt.Sprintf("step %d: %s %d", i, kind, a)
-					if kind == "sethead" && a < e.AckHead {
-						e.AckHead = a
+					if kind == "insert" || kind == "side" || kind == "sethead" {
+						e.CleanSinceStop = false
+					}
+					if kind == "sethead" {
+						if endHead == nil {
+							endHead = map[int]uint64{}
+							mb, _ := os.ReadFile(marks)
+							for _, l := range strings.Split(string(mb), "\n") {
+								var k int
+								var hh uint64
+								if n, _ := fmt.Sscanf(l, "E %d %d", &k, &hh); n == 2 {
+									endHead[k] = hh
+								}
+							}
+						}
+						if hh, ok := endHead[i]; ok && hh < a {
+							a = hh
+						}
+						if a < e.AckHead {
+							e.AckHead = a
+						}
 					}
 				case strings.HasPrefix(mk, "E "):
 					// a completed SetHead whose target state was unavailable rewound further by design
